@@ -209,6 +209,17 @@ def rule_conc(filter_names=None):
                                 ok = idx is not None and _is_partition_var(wan, wfx, idx)
                                 o.check(ok, prog.pretty[wp], "worker-ptr-write",
                                         "a worker writes through a shared raw pointer at an index that is not its loop variable over its own range", ev["span"])
+            # --- a failing pair test is published before the next one is evaluated
+            for (sp, sb, skey, wc) in ws:
+                for wp in [wc] + [c for c in crate.fn_paths() if prog.fns[c].get("parent") == wc]:
+                    r = failure_published(crate, wp)
+                    if r is None:
+                        continue
+                    verdict, sp_, msg_ = r
+                    if verdict == "undecided":
+                        o.undecide(prog.pretty[wp], "flag-published-on-failure", msg_)
+                    else:
+                        o.check(verdict, prog.pretty[wp], "flag-published-on-failure", msg_, sp_)
             # --- no thread-count dependent shortcut around the parallel section
             for (x_, sp_) in ap_fast_paths(crate, root, ws):
                 o.check(False, who, "thread-count-fast-path", "a branch on a value derived from available_parallelism() returns a result "
@@ -416,12 +427,39 @@ def tile_templates(crate, root):
                                     and d[3][0][0] == "agg" and d[3][0][3][0] == ("const", "usize", 0) and \
                                     (d[3][0][3][1] == n or _same_value(crate, an, d[3][0][3][1], n)):
                                 st_ok = True
+                        if not st_ok and start == ("arg", 2) and an.f["kind"] == "Closure":
+                            st_ok = _param_is_step_item(crate, an, c, n)
                         out.append(("start", st_ok, ev["span"], "range start is neither k * chunk nor an item of (0..n).step_by(chunk)"))
             # template 3: rows.chunks(c)
             if ev["key"] == "slice::chunks" and len(ev["args"]) == 2:
                 dc = _chunk_def(crate, an, ev["args"][1])
                 out.append(("chunks-div-ceil", dc is not None, ev["span"], "chunks() size is not div_ceil(n, t)"))
     return out
+
+
+def _param_is_step_item(crate, can, c, n):
+    """the closure is the argument of `(0..n).step_by(c).map(closure)`: its parameter is an item of that iterator"""
+    from .closures import capture_map, MAP_LIKE
+    cm = capture_map(crate, can)
+    if cm is None:
+        return False
+    pan = cm.pan
+    pfx = crate.fx(pan.path)
+    for ev in pan.events:
+        if ev["k"] != "call" or ev["key"] != "core::iter::traits::iterator::Iterator::map":
+            continue
+        if len(ev["args"]) < 2 or ev["args"][1] != cm.agg:
+            continue
+        d = ev["args"][0]
+        if d[0] == "addr":
+            d = pfx.iter_desc(ev)
+        if not (d and d != "CYCLE" and d[0] == "call" and d[1].endswith("Iterator::step_by")):
+            return False
+        rng, step = d[3][0], d[3][1]
+        if not (rng[0] == "agg" and rng[1] == "adt" and rng[2][0].endswith("ops::range::Range") and rng[3][0] == ("const", "usize", 0)):
+            return False
+        return c in cm.tr_all(step) and n in cm.tr_all(rng[3][1])
+    return False
 
 
 def ap_fast_paths(crate, root, ws):
@@ -623,3 +661,117 @@ def through_lock(an, fx, t, depth=0):
     if t[0] == "addr" and t[2] is not None:
         return through_lock(an, fx, t[2], depth + 1)
     return False
+
+
+TEST_KEYS = ("alloc::collections::btree::set::BTreeSet::contains", "alloc::collections::btree::map::BTreeMap::contains_key",
+             "graaf::op::has_arc::HasArc::has_arc")
+
+
+def failure_published(crate, wp):
+    """A worker that shares an `AtomicBool` verdict and tests pairs with two membership tests (the pair fails when both are
+    false): on every path that starts where both tests have just failed, `false` is stored into the flag before the next
+    membership test is evaluated or the worker returns.  Paths are followed with constant propagation of the two test
+    results through phis and negations; iterator results and loads of the flag are free.
+    Returns None (not such a worker), ("undecided", None, why), or (bool, span, message)."""
+    an = crate.an(wp)
+    fx = crate.fx(wp)
+    stores = [ev for ev in an.events if ev["k"] == "call" and ev["key"] == "core::sync::atomic::Atomic::store"]
+    tests = [ev for ev in an.events if ev["k"] == "call" and ev["key"] in TEST_KEYS]
+    if not stores or not tests:
+        return None
+    if len(tests) != 2:
+        return ("undecided", None, "the worker does not test a pair with exactly two membership tests")
+    c1, c2 = tests
+    if an.cfg.dominates(c2["b"], c1["b"]) and c1["b"] != c2["b"]:
+        c1, c2 = c2, c1
+    if not an.cfg.dominates(c1["b"], c2["b"]) or not fx.holds(c2["b"], lambda rel: rel.has(("false", c1["res"]))):
+        return ("undecided", None, "the second membership test is not evaluated exactly when the first one failed")
+    store_blocks = {ev["b"] for ev in stores if ev["args"][1] == ("const", "bool", 0)}
+    test_blocks = {c1["b"], c2["b"]}
+
+    def ev_(t, env):
+        if t in env:
+            return env[t]
+        if t[0] == "const" and t[1] == "bool":
+            return bool(t[2])
+        if t[0] == "un" and t[1] == "Not":
+            v = ev_(t[2], env)
+            return None if v is None else not v
+        if t[0] == "bin" and t[1] in ("Eq", "Ne") and (t[2][0] == "const" or t[3][0] == "const"):
+            x, k = (t[3], t[2]) if t[2][0] == "const" else (t[2], t[3])
+            v = ev_(x, env)
+            if v is None or k[1] != "bool":
+                return None
+            return (v == bool(k[2])) if t[1] == "Eq" else (v != bool(k[2]))
+        return None
+
+    def local_dependent(t):
+        # a value the analysis does not follow: a memory-resident local or an unresolved join
+        if isinstance(t, tuple) and t:
+            if t[0] == "phi":
+                return True
+            if t[0] == "mem" and isinstance(t[1], str) and t[1].startswith("L") and not t[1].startswith("L1."):
+                return True
+            return any(local_dependent(x) for x in t if isinstance(x, tuple))
+        return False
+    start = an.blocks[c2["b"]]["term"].get("target")
+    if start is None:
+        return ("undecided", None, "the second membership test has no normal successor")
+    env0 = {c1["res"]: False, c2["res"]: False}
+    seen = set()
+    work = [(c2["b"], start, env0, False)]
+    bad_certain = bad_uncertain = None
+    steps = 0
+    while work:
+        frm, b, env, unc = work.pop()
+        steps += 1
+        if steps > 20000:
+            return ("undecided", None, "path exploration budget exhausted")
+        # phi transfer along frm -> b
+        env = dict(env)
+        if frm in an.ver_out:
+            for var in an.phis.get(b, ()):
+                if not var.startswith("v"):
+                    continue
+                v = ev_(an.var_term(an.ver_out[frm], var), env)
+                k = ("phi", b, var)
+                if v is None:
+                    env.pop(k, None)
+                else:
+                    env[k] = v
+        key = (b, frozenset(env.items()), unc)
+        if key in seen:
+            continue
+        seen.add(key)
+        if b in store_blocks:
+            continue
+        if b in test_blocks or b in an.cfg.returns:
+            what = "the next pair is tested" if b in test_blocks else "the worker returns"
+            if unc:
+                bad_uncertain = bad_uncertain or what
+            else:
+                bad_certain = bad_certain or what
+            continue
+        succ = [(tg, lab) for tg, lab in an.cfg.succ[b] if tg in an.cfg.can_return]
+        evt = fx.ev_term.get(b)
+        unc2 = unc
+        if evt is not None and evt["k"] == "switch" and fx.is_bool_switch(b):
+            v = ev_(evt["discr"], env)
+            if v is not None:
+                keep = []
+                for tg, lab in succ:
+                    t_ = (int(lab[1]) != 0) if lab[0] == "sw" else (0 in [int(x) for x in lab[1]])
+                    if t_ == v:
+                        keep.append((tg, lab))
+                succ = keep
+            elif local_dependent(evt["discr"]):
+                unc2 = True
+        for tg, lab in succ:
+            work.append((b, tg, env, unc2))
+    sp = c2["span"]
+    if bad_certain:
+        return (False, sp, "after a pair has failed both membership tests, %s before `false` is stored into the shared flag: the "
+                "failure can be overwritten or lost, and whether it is depends on how rows are distributed over the workers" % bad_certain)
+    if bad_uncertain:
+        return ("undecided", None, "whether a failed pair is always published depends on a local the rule does not follow")
+    return (True, sp, "")
